@@ -8,6 +8,7 @@
   the real code by the harness monitor named next to it).  One clause is in that position: the canonical channel.
 -/
 import DymVerif.Lemmas.LCGood
+import DymVerif.Lemmas.LCNext
 namespace DymVerif.Props.C09
 open DymVerif DymVerif.LC
 
@@ -202,6 +203,32 @@ example : lookup sA.r2c 0 = some 0 ∧ lookup sA.c2r 0 = some 0 := by decide
 theorem agreement_inv (p : Core.Params) (ops : List Op) (hs : SafeRun (init p) ops) : AgreeInv (run (init p) ops) :=
   (run_good ops (init p) (init_good p) hs).agree
 
+/-- `SafeRun` is not vacuous: the history `opsA` (two rollapps, heights 1..3 of rollapp 0 posted, an honest client
+    designated canonical) satisfies it — at the designation every descriptor M-LC holds lies in the state info [1..3] -/
+theorem safeRun_witness : SafeRun (init P0) opsA := by
+  have hcov : ∀ cl, getClient (run (init P0) (opsA.take 8)) 0 = some cl → DescsCovered (run (init P0) (opsA.take 8)) cl.chain := by
+    intro cl hcl
+    have hch : ((getClient (run (init P0) (opsA.take 8)) 0).map (·.chain)) = some 0 := by decide
+    have hc0 : cl.chain = 0 := by simpa [hcl] using hch
+    rw [hc0]
+    intro h d hg
+    obtain ⟨hmem, hra, hh⟩ := getDesc_mem hg
+    have hdescs : (run (init P0) (opsA.take 8)).descs.map (·.h) = [1, 2, 3] := by decide
+    have hin : d.h ∈ [1, 2, 3] := by rw [← hdescs]; exact List.mem_map_of_mem hmem
+    have hst : ((Core.getRa (run (init P0) (opsA.take 8)).core 0).map (fun r => r.states.map (fun st => (st.start, st.last)))) = some [(1, 3)] := by decide
+    cases hr : Core.getRa (run (init P0) (opsA.take 8)).core 0 with
+    | none => simp [hr] at hst
+    | some r =>
+      simp only [hr, Option.map_some, Option.some.injEq] at hst
+      cases hs : r.states with
+      | nil => simp [hs] at hst
+      | cons st rest =>
+        simp only [hs, List.map_cons, List.cons.injEq, Prod.mk.injEq] at hst
+        refine ⟨r, st, rfl, by simp [hs], ?_, ?_⟩
+        · rw [hst.1.1]; simp only [List.mem_cons, List.mem_nil_iff, or_false] at hin; omega
+        · rw [hst.1.2]; simp only [List.mem_cons, List.mem_nil_iff, or_false] at hin; omega
+  refine ⟨trivial, trivial, trivial, trivial, trivial, trivial, trivial, trivial, hcov, trivial⟩
+
 /-- a header at height 3 of rollapp 0 with a wrong root, signed for the canonical client of rollapp 0 but naming
     sequencer a3 of rollapp 1 (which has no state at height 3) as proposer -/
 def hdrForeign : Hdr := { h := 3, cons := ⟨99, 30, 1⟩, propSig := 3, propData := 3, rev := 0, sole := true }
@@ -305,6 +332,71 @@ theorem later_conflict_rejected_update {s : St} (hg : Good s) (m : Core.UpdMsg) 
     ((coreOp s (.update m) ds).2 ≠ .ok → (coreOp s (.update m) ds).1 = s) ∧ AgreeInv (coreOp s (.update m) ds).1 :=
   ⟨coreOp_reject_unchanged s _ ds, (good_coreOp hg _ ds).2⟩
 
+/-- the same for every reachable state (the hypothesis `Good s` discharged by `run_good`): after any run that satisfies
+    the side condition of `agreement_inv`, whatever state update comes next -/
+theorem later_conflict_rejected_update_reachable (p : Core.Params) (ops : List Op) (hs : SafeRun (init p) ops)
+    (m : Core.UpdMsg) (ds : List (Nat × Option Nat)) :
+    ((coreOp (run (init p) ops) (.update m) ds).2 ≠ .ok → (coreOp (run (init p) ops) (.update m) ds).1 = run (init p) ops) ∧
+    AgreeInv (coreOp (run (init p) ops) (.update m) ds).1 :=
+  later_conflict_rejected_update (run_good ops (init p) (init_good p) hs) m ds
+
+-- ------------------------------------------------------------------------------------------------ the third field
+
+/- The property names three fields: state root, timestamp, next-sequencer hash.  `Agrees` / `AgreeInv` carry the first
+   two.  The next sequencer of a height is read from the state info as it is when the comparison is made
+   (`StateInfo.NextSequencerForHeight`), so the third field is a theorem about each of the three comparisons
+   (`Agrees3` = `Agrees` ∧ the consensus state's next-validators hash is that of the sequencer the state info
+   names for the next block): -/
+
+/-- **set_canonical_requires_agreement** (three fields) — an accepted designation: every consensus state of the client
+    inside a state info of the rollapp agrees with the descriptor in root, timestamp and next-sequencer hash -/
+theorem set_canonical_requires_agreement_next {p : Core.Params} {s s' : St} {c : Nat} (hs : Reachable p s)
+    (h : step s (.setCanonical c) = (s', .ok)) :
+    ∃ cl r, getClient s c = some cl ∧ Core.getRa s.core cl.chain = some r ∧
+      ∀ st ∈ r.states, ∀ ht cs, st.start ≤ ht → ht ≤ st.last → getCons cl ht = some cs →
+          ∃ d, getDesc s cl.chain ht = some d ∧ Agrees3 s st ht cs d := by
+  obtain ⟨ops, rfl⟩ := hs
+  have hchain := run_coreChain ops (init p) (init_coreChain p)
+  simp only [step] at h
+  rcases setCanonical_cases (run (init p) ops) c with ⟨_, e, he⟩ | ⟨cl, r, hcl, hr, _, _, hv, _, _⟩
+  · rw [show setCanonical (run (init p) ops) c = ((setCanonical (run (init p) ops) c).1, (setCanonical (run (init p) ops) c).2) from rfl, he] at h
+    simp at h
+  · exact ⟨cl, r, hcl, hr, validLoop_all_next (hchain r (Core.getRa_mem hr)) hv⟩
+
+/-- **later_conflict_rejected** (header after state update, three fields) — a header that names a registered sequencer,
+    for a height a state info `st` of that sequencer's rollapp covers, and that differs from the descriptor of the
+    height in root, timestamp or next-sequencer hash, is refused by the ante handler and nothing changes — on any
+    client, canonical or not. -/
+theorem later_conflict_rejected_header_next {s : St} {c : Nat} {hd : Hdr} {ibc : Bool} {q : Core.Seq} {ra : Core.Rollapp}
+    {i : Nat} {st : Core.SInfo} {d : Desc}
+    (hq : Core.getSeq s.core hd.propData = some q) (hr : Core.getRa s.core q.rollapp = some ra)
+    (hi : Core.findByHeight ra hd.h = some i) (hst : ra.states[i - 1]? = some st)
+    (hd' : getDesc s q.rollapp hd.h = some d) (hconf : ¬ Agrees3 s st hd.h hd.cons d) :
+    ∃ e, updateClient s c .top hd ibc = (s, .ante e) := by
+  cases hh : handleUpdate s c hd with
+  | mk x oe =>
+    cases oe with
+    | some e => exact ⟨e, updateClient_top_ante hh⟩
+    | none =>
+      exfalso
+      obtain ⟨st', d', hst', _, hd'', ha⟩ := handleUpdate_ok_next hh hq hr hi
+      rw [hst] at hst'; cases hst'
+      rw [hd'] at hd''; cases hd''
+      exact hconf ha
+
+/-- **later_conflict_rejected** (state update after header, three fields) — when the hook of an accepted state update
+    (`AfterUpdateState`, ordinary path) lets the new state info `st` through, every consensus state of the canonical
+    client at one of its heights agrees with the new descriptor in all three fields -/
+theorem later_conflict_rejected_update_next {s s4 : St} {ra c : Nat} {st : Core.SInfo} {cl : Client}
+    (h : validateNew s ra st c cl = (s4, none)) :
+    ∀ ht cs, st.start ≤ ht → ht ≤ st.last → getCons cl ht = some cs → ∃ d, getDesc s ra ht = some d ∧ Agrees3 s st ht cs d := by
+  obtain ⟨_, b, hb⟩ := validateNew_ok h
+  intro ht cs h1 h2 hc
+  exact validateStateInfo_agrees_next hb h1 h2 hc
+
+/-- a header for the posted height 3 with the right root and timestamp but naming another next validator set is refused -/
+example : (step sA (.updateClient 0 .top { h := 3, cons := ⟨4, 30, 2⟩, propSig := 0, propData := 0, rev := 0, sole := true } true)).2 = .ante .nextVal := by decide
+
 /-- concrete: after an optimistic header at height 4 (root 5), a state update posting root 77 for height 4
     is refused with the root-mismatch error; the honest one is accepted -/
 def sOpt : St := (step sA (.updateClient 0 .top { h := 4, cons := ⟨5, 40, 1⟩, propSig := 0, propData := 0, rev := 0, sole := true } true)).1
@@ -395,7 +487,18 @@ example : ((getClient (step sD (.misbehaviour 0 .submit true)).1 0).map (·.froz
 /-- **nested_update_rejected** — an ibc `MsgUpdateClient` inside any wrapper (depth ≥ 1) is refused by the
     ante handler whatever it carries, and nothing changes; the hub-side checks cannot be bypassed by nesting. -/
 theorem nested_update_rejected (s : St) (c : Nat) (hd : Hdr) (ibc : Bool) :
-    updateClient s c .nested hd ibc = (s, .ante .nestedDisabled) := rfl
+    updateClient s c .nested hd ibc = (s, .ante .nestedDisabled) ∧
+    updateClient s c .storedProposal hd ibc = (s, .ante .nestedDisabled) := ⟨rfl, rfl⟩
+
+/-- the same for evidence: inside authz.MsgExec or inside an x/group proposal that is only stored at submission
+    (to be executed later by a vote, through the message router alone) the message is refused by the ante handler of
+    the SUBMITTING transaction, whatever client it names (that the filter descends into proposals whatever their
+    `Exec` field says is the regenerated fact `ante_filter_shape`, Lemmas/GenEqAnteLC) -/
+theorem stored_proposal_rejected (s : St) (c : Nat) (hd : Hdr) (ibc : Bool) (cl : Client) (hc : getClient s c = some cl) :
+    updateClient s c .storedProposal hd ibc = (s, .ante .nestedDisabled) ∧
+    misbehaviour s c .submitStored ibc = (s, .ante .nestedDisabled) ∧
+    misbehaviour s c .viaUpdateStored ibc = (s, .ante .nestedDisabled) := by
+  refine ⟨rfl, ?_, ?_⟩ <;> simp [misbehaviour, hc]
 
 /-- the wrapper message of x/lightclient cannot be executed at all as the code is (no signer annotation):
     refused without any change by both routes -/
@@ -408,8 +511,8 @@ theorem wrapped_update_unusable (s : St) (c : Nat) (hd : Hdr) (ibc : Bool) :
 -- 8. first_channel_only
 -- ================================================================================================
 
-theorem chanAck_chanOf (s : St) (ch : Nat) (ibc : Bool) (r x : Nat) (h : lookup s.chanOf r = some x) :
-    lookup (chanAck s ch ibc).1.chanOf r = some x := by
+theorem chanAck_chanOf (s : St) (ch : Nat) (w : ChanRoute) (ibc : Bool) (r x : Nat) (h : lookup s.chanOf r = some x) :
+    lookup (chanAck s ch w ibc).1.chanOf r = some x := by
   unfold chanAck
   repeat' split
   all_goals first
@@ -434,7 +537,7 @@ theorem step_chanOf_stable (s : St) (op : Op) (r x : Nat) (h : lookup s.chanOf r
     simp only [step, chanInit]
     repeat' split
     all_goals exact h
-  | chanAck ch ibc => simp only [step]; exact chanAck_chanOf s ch ibc r x h
+  | chanAck ch w ibc => simp only [step]; exact chanAck_chanOf s ch w ibc r x h
 
 /-- **first_channel_only** — the canonical channel of a rollapp, once set, is never changed by any op
     sequence; it is set only by a channel-open-ack on a transfer channel over the rollapp's canonical
@@ -447,9 +550,24 @@ theorem first_channel_only (s : St) (r x : Nat) (h : lookup s.chanOf r = some x)
     simp only [run, List.foldl_cons]
     exact ih _ (step_chanOf_stable s op r x h)
 
-theorem first_channel_only_set {s : St} {ch : Nat} {ibc : Bool} {r : Nat} (h0 : lookup s.chanOf r = none)
-    (h1 : lookup (chanAck s ch ibc).1.chanOf r = some ch) :
-    ∃ c, s.chans.find? (·.id == ch) = some c ∧ lookup s.c2r c.client = some r := by
+/-- by the two routes the decorator does not look at, `Rollapp.ChannelId` is never written -/
+theorem chanAck_unseen_chanOf (s : St) (ch : Nat) (w : ChanRoute) (ibc : Bool) (hw : w ≠ .ack) :
+    (chanAck s ch w ibc).1.chanOf = s.chanOf := by
+  unfold chanAck
+  cases w with
+  | ack => exact absurd rfl hw
+  | nestedAck => cases s.chans.find? (·.id == ch) <;> cases ibc <;> rfl
+  | confirm => cases s.chans.find? (·.id == ch) <;> cases ibc <;> rfl
+
+theorem first_channel_only_set {s : St} {ch : Nat} {w : ChanRoute} {ibc : Bool} {r : Nat} (h0 : lookup s.chanOf r = none)
+    (h1 : lookup (chanAck s ch w ibc).1.chanOf r = some ch) :
+    w = .ack ∧ ∃ c, s.chans.find? (·.id == ch) = some c ∧ lookup s.c2r c.client = some r := by
+  have hw : w = .ack := by
+    by_cases hw : w = .ack
+    · exact hw
+    · rw [chanAck_unseen_chanOf s ch w ibc hw, h0] at h1; exact absurd h1 (by simp)
+  subst hw
+  refine ⟨rfl, ?_⟩
   unfold chanAck at h1
   cases hc : s.chans.find? (·.id == ch) with
   | none => simp [hc, h0] at h1
@@ -476,15 +594,15 @@ theorem first_channel_only_set {s : St} {ch : Nat} {ibc : Bool} {r : Nat} (h0 : 
         · exact absurd key (by simp)
 
 /- Full clause: "only the first transfer channel *opened* over the canonical client becomes canonical":
-     lookup (chanAck s ch ibc).1.chanOf r = some ch (newly) → the channel ch is open afterwards
+     lookup (chanAck s ch w ibc).1.chanOf r = some ch (newly) → the channel ch is open afterwards
    FALSE of the current code: the ante handler writes the channel id before the handshake proof is checked,
    and the write is kept when the message fails. -/
 
 /-- **first_channel_only_partial** — when the handshake proof verifies, the channel that became canonical is open -/
 theorem first_channel_only_partial {s : St} {ch : Nat} {r : Nat} (h0 : lookup s.chanOf r = none)
-    (h1 : lookup (chanAck s ch true).1.chanOf r = some ch) :
-    ∃ c ∈ (chanAck s ch true).1.chans, c.id = ch ∧ c.isOpen = true := by
-  obtain ⟨c, hc, hr⟩ := first_channel_only_set h0 h1
+    (h1 : lookup (chanAck s ch .ack true).1.chanOf r = some ch) :
+    ∃ c ∈ (chanAck s ch .ack true).1.chans, c.id = ch ∧ c.isOpen = true := by
+  obtain ⟨_, c, hc, hr⟩ := first_channel_only_set h0 h1
   have hcm := List.mem_of_find?_eq_some hc
   have hid : c.id = ch := by simpa using List.find?_some hc
   have hnone : (lookup s.chanOf r).isSome = false := by simp [h0]
@@ -501,11 +619,57 @@ def sCh : St := run sA [.chanInit 0, .chanInit 0]
     with a bad proof for channel 0 makes it the canonical channel although it is not open; the ack with a
     good proof for channel 1 — the first channel that could actually open — is then refused. -/
 theorem first_channel_only_counterexample :
-    (step sCh (.chanAck 0 false)).2 = .msg .ibc ∧
-    lookup (step sCh (.chanAck 0 false)).1.chanOf 0 = some 0 ∧
-    ((step sCh (.chanAck 0 false)).1.chans.map (·.isOpen)) = [false, false] ∧
-    (step (step sCh (.chanAck 0 false)).1 (.chanAck 1 true)).2 = .ante .chanExists := by decide
+    (step sCh (.chanAck 0 .ack false)).2 = .msg .ibc ∧
+    lookup (step sCh (.chanAck 0 .ack false)).1.chanOf 0 = some 0 ∧
+    ((step sCh (.chanAck 0 .ack false)).1.chans.map (·.isOpen)) = [false, false] ∧
+    (step (step sCh (.chanAck 0 .ack false)).1 (.chanAck 1 .ack true)).2 = .ante .chanExists := by decide
 
-example : (step sCh (.chanAck 0 true)).2 = .ok ∧ ((step sCh (.chanAck 0 true)).1.chans.map (·.isOpen)) = [true, false] := by decide
+/- Second way the full clause fails ("the FIRST transfer channel opened over the canonical client becomes the
+   canonical channel"): the decorator only handles `MsgChannelOpenAck` at the top level of a transaction.  The same
+   message inside `authz.MsgExec` (not in the nested-message filter either), and `MsgChannelOpenConfirm` (handshake
+   started from the rollapp side), open the channel without `Rollapp.ChannelId` being written. -/
+
+/-- **first_channel_only_seen_partial** — by the one route the decorator handles, with a verifying proof, the first
+    channel acknowledged over the canonical client of a rollapp without canonical channel becomes canonical -/
+theorem first_channel_only_seen_partial {s : St} {ch r : Nat} {c : Chan} (hc : s.chans.find? (·.id == ch) = some c)
+    (hr : lookup s.c2r c.client = some r) (h0 : lookup s.chanOf r = none) :
+    (chanAck s ch .ack true).2 = .ok ∧ lookup (chanAck s ch .ack true).1.chanOf r = some ch := by
+  have hnone : (lookup s.chanOf r).isSome = false := by simp [h0]
+  unfold chanAck
+  simp only [hc, hr, hnone]
+  refine ⟨by simp, ?_⟩
+  simp only [Bool.false_eq_true, if_false, if_true]
+  rw [lookup_append_single h0]
+  simp
+
+/-- what the code does on the two other routes: an existing channel opens (verifying proof), the canonical-channel
+    record of every rollapp stays as it was -/
+theorem unseen_route_opens_undesignated {s : St} {ch : Nat} {w : ChanRoute} {c : Chan} (hw : w ≠ .ack)
+    (hc : s.chans.find? (·.id == ch) = some c) :
+    (chanAck s ch w true).2 = .ok ∧ (chanAck s ch w true).1.chanOf = s.chanOf ∧
+    ∃ c' ∈ (chanAck s ch w true).1.chans, c'.id = ch ∧ c'.isOpen = true := by
+  have hcm := List.mem_of_find?_eq_some hc
+  have hid : c.id = ch := by simpa using List.find?_some hc
+  refine ⟨?_, chanAck_unseen_chanOf s ch w true hw, ?_⟩
+  · unfold chanAck; cases w <;> simp_all
+  · refine ⟨{ c with isOpen := true }, ?_, hid, rfl⟩
+    unfold chanAck
+    cases w with
+    | ack => exact absurd rfl hw
+    | nestedAck => simp only [hc, if_true, List.mem_map]; exact ⟨c, hcm, by simp [hid]⟩
+    | confirm => simp only [hc, if_true, List.mem_map]; exact ⟨c, hcm, by simp [hid]⟩
+
+/-- **first_channel_only_unseen_counterexample** (monitor `C09/first_channel_only/opened-channel-not-canonical`): channel 0
+    over the canonical client of rollapp 0 is opened by an ack nested in `authz.MsgExec` (resp. by a
+    `MsgChannelOpenConfirm`): it is open and rollapp 0 has no canonical channel; the later top-level ack of channel 1
+    makes channel 1 — not the first opened one — the canonical channel. -/
+theorem first_channel_only_unseen_counterexample : ∀ w ∈ [ChanRoute.nestedAck, ChanRoute.confirm],
+    (step sCh (.chanAck 0 w true)).2 = .ok ∧
+    ((step sCh (.chanAck 0 w true)).1.chans.map (·.isOpen)) = [true, false] ∧
+    lookup (step sCh (.chanAck 0 w true)).1.chanOf 0 = none ∧
+    (step (step sCh (.chanAck 0 w true)).1 (.chanAck 1 .ack true)).2 = .ok ∧
+    lookup (step (step sCh (.chanAck 0 w true)).1 (.chanAck 1 .ack true)).1.chanOf 0 = some 1 := by decide
+
+example : (step sCh (.chanAck 0 .ack true)).2 = .ok ∧ ((step sCh (.chanAck 0 .ack true)).1.chans.map (·.isOpen)) = [true, false] := by decide
 
 end DymVerif.Props.C09
